@@ -7,7 +7,7 @@
     readdir order at every read, working or ineffective lock, stale-head writers ([CStale]).
     [step true] is the code that exists (guard of commit 04357b3, scraped from the source on
     every run as C21_REMOVE_LOOP_BODY); [step false] is the code before it. *)
-From Verif Require Import Base.Prelude Base.SchedS Gen.Tables Model.C21 Proofs.C21.
+From Verif Require Import Base.Prelude Base.SchedS Gen.Tables Model.C21Codec Proofs.C21Codec Model.C21 Proofs.C21.
 
 (* ------------------------------------------------------------------ single-instance laws *)
 
@@ -50,6 +50,16 @@ Theorem C21_reconcile_keeps_all : forall (t0 : table) (others : list table) (k :
   lookup (reconcile t0 others) k <> None <->
   lookup t0 k <> None \/ (exists o, In o others /\ lookup o k <> None).
 Proof. exact reconcile_keys. Qed.
+
+(** The segment byte codec (u32-LE lengths, key || offset index, concatenated values) loses
+    nothing: loading a serialised segment gives back its parent name and its entries, for
+    every key size and every value size (reload never changes a lookup). *)
+Theorem C21_codec_roundtrip : forall ks parent es,
+  (forall k v, In (k, v) es -> length k = ks) ->
+  (blen parent < 4294967296)%N -> (blen es < 4294967296)%N ->
+  (blen (concat (map snd es)) < 4294967296)%N ->
+  load ks (serialize parent es) = Some (parent, es).
+Proof. exact codec_roundtrip. Qed.
 
 (* ------------------------------------------------------------------ the heads protocol *)
 
@@ -173,3 +183,4 @@ Print Assumptions C21_protocol_locked.
 Print Assumptions C21_old_code_refuted.
 Print Assumptions C21_overlap_refuted.
 Print Assumptions C21_squash_same_lookup.
+Print Assumptions C21_codec_roundtrip.
